@@ -13,7 +13,7 @@ def rows_eq(got, exp, lens, check_dtype=True):
         if not np.array_equal(x,y,equal_nan=True): return 'values'
     if check_dtype and len(exp) and got.dtype!=np.asarray(exp[0]).dtype: return 'dtype:%s!=%s'%(got.dtype, np.asarray(exp[0]).dtype)
     return None
-for it in range(60000):
+for it in range(int(__import__("os").environ.get("RECON_N", 60000))):
     lens = rand_lengths(); n=sum(lens)
     d1 = random.choice(dts)
     a = rand_data(n,d1); ra = RaggedArray(a.copy(), lens); rows = split(a,lens)
